@@ -226,7 +226,9 @@ def answer (ws : List String) : String :=
             !(prefixOk ops ow.1 && ackVisibleOk ops ow.1 && ackDurableOk ops ow.1))
           let window := !bad.isEmpty && bad.all (·.2)
           "propfail " ++ ",".intercalate (failed.map (·.1)) ++ " " ++ arm ++
-            " window=" ++ (if window then "1" else "0") ++ " origins=" ++ (if origins then "1" else "0")
+            " window=" ++ (if window then "1" else "0") ++ " origins=" ++ (if origins then "1" else "0") ++
+            -- does the implementation behave exactly as the model (which includes the recorded defects) predicts?
+            " agree=" ++ (if a.firstDiff.isNone then "1" else "0")
         else match a.firstDiff with
           | some d => "diff " ++ arm ++ " " ++ d
           | none => "ok " ++ arm ++ (if a.nApply == 0 then " trivial" else "")
